@@ -13,38 +13,55 @@ MANIFEST = dict(
         "admissible lower-bound function, every query and every number of next() calls: squaredRadius never exceeds the distance of a "
         "point not yet queued (radius_is_lower_bound, needs admissible bounds only); under LeafUniform (each leaf holds copies of one "
         "point - the header's documented precondition) the first k calls of next(), for every k <= n, return k distinct points with "
-        "their TRUE squared distances, each minimal among the points not yet returned, no point lost (next_returns_min), distances "
-        "non-decreasing (next_distances_nondecreasing), and equal to the k smallest distances of exhaustive search in order "
+        "their TRUE squared distances, each minimal among the points not yet returned, no point lost or returned twice (next_returns_min), "
+        "distances non-decreasing (next_distances_nondecreasing), and equal to the k smallest distances of exhaustive search in order "
         "(tree_knn_eq_bruteforce); a kernel-decided witness shows the model - like the real code, known finding K1 - reports wrong "
         "distances and a wrong order without LeafUniform although bounds are admissible (next_wrong_without_leafuniform, "
-        "k1Tree_hypotheses); kd-tree construction keeps the index list a permutation of 0..n-1 for all bucket sizes/depth limits "
-        "(indexList_perm, split_partitions); NearestNeighborModel votes, soft output (any distance weights) and predicted class "
-        "depend only on the multiset of (distance,label) neighbours (nn_model_backend_independent). "
+        "k1Tree_hypotheses); what the search computes WITHOUT LeafUniform is characterised exactly: on every tree with distinct index "
+        "entries it is an exact search for the leaf distance (distance stored at the leaf holding the point; the real code: of the leaf's "
+        "first point) - every point once, in order (k1_exact_for_leaf_distance); kd-tree construction keeps the index list a permutation "
+        "of 0..n-1 for all bucket sizes/depth limits (indexList_perm, split_partitions), and calculateCuttingDimension declares a cell "
+        "unsplittable only if its points agree in every coordinate (calcCutDim_dim_uniform); the feature distance of the linear kernel "
+        "is the squared Euclidean distance (featureDist2_linear); NearestNeighborModel votes, soft output (any distance weights) and "
+        "predicted class depend only on the multiset of (distance,label) neighbours (nn_model_backend_independent). "
         "NOT proved, covered by the correspondence only: split_separates and kd_bound_admissible (that the kd construction yields "
-        "admissible bounds) - instead the driver checks exactly, on every generated real tree and query, that every bound is "
-        "admissible and that the model's kd thresholds/cut dimensions/bounds equal the real ones. "
+        "admissible bounds), and that a kd cell of positive extent is always split further - instead the driver checks exactly, on "
+        "every generated real tree and query, that every bound is admissible and that the model's kd thresholds/cut dimensions/bounds "
+        "equal the real ones, and the harness checks that no tree built with bucket size 1 has a leaf with two distinct points. "
         "Correspondence (exact, line by line): full query state after every next() (reported squared distance and index, radius, "
         "queue size, neighbours counter, nextIndex, head, all trace marks), kd construction (shape, cut dimensions, thresholds, leaf "
-        "index sets), kNN lists of TreeNearestNeighbors and SimpleNearestNeighbors, NearestNeighborModel decisions with both "
-        "back-ends (uniform: exact; 1/distance: same IEEE operations in the driver), on generated integer point sets (1-6 dim, "
-        "duplicates, collinear, points on split planes, far queries), KDTree/LCTree/KHCTree(linear kernel), bucket sizes 1-4, depth "
-        "limits, all k (every query is run for n calls), plus an independent brute-force oracle in the harness (ASan/UBSan)."),
+        "index sets), kNN lists (distance AND label) of TreeNearestNeighbors and SimpleNearestNeighbors, NearestNeighborModel decisions "
+        "with both back-ends (uniform: exact; 1/distance: same IEEE operations in the driver); getNeighbors/eval are called on BATCHES "
+        "of 1-4 query points; generated integer point sets (1-6 dim, duplicates with different labels, collinear, points on split "
+        "planes, far queries), data sets in batches of 1/2/3/4/7/one batch, KDTree/LCTree/KHCTree(linear kernel)/KHCTree(kernel "
+        "(<x,y>+1)^2, a non-Euclidean metric with integer feature distances; generated once finding KH1 is fixed, probed on every run), "
+        "bucket sizes 1-4, depth limits, all k (every query is run for n calls); a slice of all groups is re-run with 3 OpenMP threads "
+        "(per-thread heaps of the exhaustive search). Independent brute-force oracle in the harness (ASan/UBSan), by definition: the "
+        "enumeration returns every index once, with its true distance, i-th result = i-th smallest; a k-neighbour list has the k "
+        "smallest distances in order and reports no (distance,label) combination more often than data points with it exist (both "
+        "back-ends); predictions equal the brute-force decision when the k-neighbourhood is unambiguous."),
   note=TRUST + "all compared quantities are exact on integer points (squared distances; the reported sqrt is compared through its "
        "square with the nearest-double rule); LC/KHC tree geometry (normals, thresholds) is not modelled - their real per-query "
        "lower bounds and isLeft decisions are fed to the model and their admissibility is checked per query (exactly for kd; with relative slack 2^-40 for LC/KHC, whose bounds are rounded doubles and were observed to exceed the exact distance by an ulp at n=60); the order "
        "std::nth_element leaves inside a leaf and the heap-address tie-break are adopted from the real tree (harness annotation, "
        "tools/c17_drv.py). LeafUniform and admissibility are hypotheses of next_returns_min; the property as stated also quantifies "
-       "over bucket sizes > 1, where the real code is wrong (known finding K1, reported by this check with a replay). "
-       "Findings T1, R1, L1, S1 found by this check were fixed in /repo; their inputs stay in corpus/C17.",
+       "over bucket sizes > 1, where the real code is wrong (known finding K1, reported by this check with a replay). The K1 key is "
+       "narrow: the harness emits it only for a tree built with maxBucketSize > 1 that has a leaf with distinct points AND whose "
+       "results pass the whole brute-force oracle w.r.t. the leaf-first distances (k1_exact_for_leaf_distance), and the check accepts "
+       "it only where the model reproduces the output line; a distinct-point leaf at bucket size 1, a repeated index, a foreign label "
+       "or any other discrepancy is a fresh violation. Open finding KH1 (KHCTree does not override kernel(): Euclidean point distances "
+       "in a kernel tree; findings_proposed/C17-KH1.patch): while open, kernel trees over the non-linear kernel are probed "
+       "(KNOWN-FINDING) but not generated. Findings T1, R1, L1, S1 found by this check were fixed in /repo; their inputs stay in corpus/C17.",
   technique="Lean 4 invariant proof over the query state machine (all trees, all histories) + exact differential correspondence with the C++ (ASan/UBSan) + brute-force oracle",
   design="§6 C17")
 
 FINISH = dict(level="proof",
-              rule="cases = (integer point set, labels, tree kind/bucket/depth, queries) from one SplitMix64 stream; every query is run "
-                   "for n next() calls (all k at once) and compared state by state; a case is non-trivial if n >= 4 and the tree "
+              rule="cases = (batch size, integer point set, labels, tree kind/bucket/depth, queries, batched knn/model calls) from one "
+                   "SplitMix64 stream; every query is run for n next() calls (all k at once) and compared state by state; a case is non-trivial if n >= 4 and the tree "
                    "has inner nodes; distinct = distinct op text")
 
-ANNOT = os.path.join(core.CACHE, "c17-annot")
+# one annotation directory per check process (several seeds may run at once)
+ANNOT = os.path.join(core.CACHE, f"c17-annot-{os.getpid()}")
 DRV_WRAPPER = os.path.join(core.VERIF, "tools", "c17_drv.py")
 LAKE_TARGETS = ["SharkVerif.Props.C17", "drv_c17"]
 PROP_MODULES = ["SharkVerif.Props.C17"]
@@ -108,6 +125,12 @@ def gen_query(r, ctx, dim, pts):
     return q
 
 
+def gen_k(r, ctx, n, pts, labels):
+    k = r.range(1, n)
+    ctx.hist("k_over_n", "k=n" if k == n else ("k=1" if k == 1 else "1<k<n"))
+    return k
+
+
 ROOT_LEAF_OK = True
 
 
@@ -122,7 +145,14 @@ def gen_case(r, ctx, kinds, allow_lc_dups, big, buckets):
         if ROOT_LEAF_OK or not root_leaf:
             break
     ctx.hist("root_is_leaf", root_leaf)
-    ops = [f"data {dim} {n} " + " ".join(str(x) for p in pts for x in p)]
+    ops = []
+    if r.chance(1, 3):      # batch structure of the data set (default: batches of 3)
+        b = r.choice([1, 2, 4, 7, 1000])
+        ops.append(f"batch {b}")
+        ctx.hist("batch_size", b)
+    else:
+        ops.append("batch 0")
+    ops.append(f"data {dim} {n} " + " ".join(str(x) for p in pts for x in p))
     nc = r.range(2, 4)          # at least two classes (a one-column Classifier output is thresholded instead of arg-maxed)
     labels = [r.below(nc) for _ in range(n)]
     labels[r.below(n)] = nc - 1
@@ -132,13 +162,17 @@ def gen_case(r, ctx, kinds, allow_lc_dups, big, buckets):
     ctx.hist("tree_kind", kind); ctx.hist("bucket", bucket); ctx.hist("max_depth", depth)
     for _ in range(r.range(2, 4)):
         ops.append("query " + " ".join(str(x) for x in gen_query(r, ctx, dim, pts)))
+    # getNeighbors / eval are called on BATCHES of 1-4 query points (one op = one call)
     for _ in range(r.range(1, 3)):
-        k = r.range(1, n)
-        ops.append(f"knn {k} 0 " + " ".join(str(x) for x in gen_query(r, ctx, dim, pts)))
-        ctx.hist("k_over_n", "k=n" if k == n else ("k=1" if k == 1 else "1<k<n"))
+        k = gen_k(r, ctx, n, pts, labels)
+        m = r.choice([1, 1, 2, 3, 4])
+        ops.append(f"knn {k} 0 " + " ".join(str(x) for _ in range(m) for x in gen_query(r, ctx, dim, pts)))
+        ctx.hist("batch_rows", m)
     for _ in range(r.range(1, 3)):
-        k = r.range(1, n)
-        ops.append(f"model {k} {r.below(2)} " + " ".join(str(x) for x in gen_query(r, ctx, dim, pts)))
+        k = gen_k(r, ctx, n, pts, labels)
+        m = r.choice([1, 1, 2, 3, 4])
+        ops.append(f"model {k} {r.below(2)} " + " ".join(str(x) for _ in range(m) for x in gen_query(r, ctx, dim, pts)))
+        ctx.hist("batch_rows", m)
     if r.chance(1, 4):   # a second tree over the same data
         kind2 = r.choice(kinds); b2 = r.choice(buckets)
         if (kind2 == "kd" or allow_dups) and (ROOT_LEAF_OK or n > max(b2, 1)):
@@ -150,6 +184,22 @@ def gen_case(r, ctx, kinds, allow_lc_dups, big, buckets):
 # --------------------------------------------------------------------------- classification
 def oracle_keys(line):
     return re.findall(r"!oracle (\S+)", line)
+
+
+def _known_res():
+    try:
+        data = json.load(open(os.path.join(core.VERIF, "known_findings.json")))
+    except OSError:
+        return []
+    return [re.compile(e["key"]) for e in data.get("findings", [])
+            if e.get("property") == "C17" and e.get("status", "open") == "open"]
+
+
+KNOWN_RES = _known_res()
+
+
+def is_known(key):
+    return any(rx.fullmatch(key) for rx in KNOWN_RES)
 
 
 def classify(ops, res):
@@ -171,6 +221,15 @@ def classify(ops, res):
         return f"crash:{tag}:{kinds}", f"harness aborted ({tag}) on ops {ops}"
     if res.oracle:
         keys = [k for l in res.oracle for k in oracle_keys(l)]
+        # a key that is NOT a listed finding names the case (a listed one must never hide it)
+        fresh = [k for k in keys if not is_known(k)]
+        if fresh:
+            return fresh[0], f"property oracle failed ({', '.join(sorted(set(keys)))}) on ops {ops}"
+        if res.diff_at is not None and res.diff_at < len(res.impl) and res.diff_at < len(res.model):
+            # only listed findings fire, but the implementation ALSO deviates from the model, which reproduces the
+            # listed defect exactly (next_wrong_without_leafuniform): something else is wrong
+            return (f"mismatch-beyond-known-finding:{kinds}",
+                    f"model and implementation disagree at line {res.diff_at} beyond the listed finding(s) {sorted(set(keys))} on ops {ops}")
         return keys[0], f"property oracle failed ({', '.join(sorted(set(keys)))}) on ops {ops}"
     return f"mismatch:{kinds}", f"model and implementation disagree at line {res.diff_at} of ops {ops}"
 
@@ -186,12 +245,12 @@ def load_corpus():
 
 
 def nontrivial(ops):
-    t = ops[0].split()
+    t = [o for o in ops if o.startswith("data ")][0].split()
     return int(t[2]) >= 4
 
 
 # --------------------------------------------------------------------------- correspondence with known-finding pre-pass
-def correspond(ctx, name, cases, hcmd, dcmd):
+def correspond(ctx, name, cases, hcmd, dcmd, ENV=ENV):
     """One batched run; cases whose ONLY failures are oracle tags of known findings (and whose
     model/implementation lines otherwise agree) are reported once per finding (KNOWN-FINDING) and
     counted; every other failing case goes through core.correspond (isolation, shrinking, VIOLATION)."""
@@ -208,7 +267,7 @@ def correspond(ctx, name, cases, hcmd, dcmd):
         ctx.log(f"{name}: {len(cases)} cases / {len(all_ops)} ops agree")
         return 0
     if big.crash or len(big.impl) != len(all_ops) or len(big.model) != len(all_ops):
-        return core.correspond(ctx, name, cases, hcmd, dcmd, classify, env=ENV, keep_prefix=3)
+        return core.correspond(ctx, name, cases, hcmd, dcmd, classify, env=ENV, keep_prefix=4)
     rest, pos, nknown = [], 0, 0
     for c in cases:
         impl, model = big.impl[pos:pos + len(c)], big.model[pos:pos + len(c)]
@@ -237,7 +296,7 @@ def correspond(ctx, name, cases, hcmd, dcmd):
     if rest:
         # isolation + shrinking is expensive: a dozen failing cases are enough to name the failure
         ctx.cov["failing_cases_" + name] = len(rest)
-        return core.correspond(ctx, name + "[isolate]", rest[:12], hcmd, dcmd, classify, env=ENV, keep_prefix=3)
+        return core.correspond(ctx, name + "[isolate]", rest[:12], hcmd, dcmd, classify, env=ENV, keep_prefix=4)
     return 0
 
 
@@ -251,6 +310,10 @@ R1_PROBE = [["data 1 1 2", "labels 1", "build kd 0 1", "query 1"],
             ["data 2 3 1 1 1 1 1 1", "labels 0 1 1", "build kd 0 1", "query 0 0", "knn 2 0 3 3"]]
 L1_PROBE = [["data 2 3 1 1 1 1 5 5", "labels 0 0 1", "build lc 0 1", "query 0 0"],
             ["data 1 4 7 7 3 9", "labels 0 0 1 1", "build khc 0 1", "query 1"]]
+
+
+# kernel-induced metric: 2 points, the Euclidean-nearest of the query is not the kernel-nearest (finding KH1)
+KH1_PROBE = [["data 1 2 -3 2", "labels 0 1", "build khcp 0 1", "query -1", "knn 1 0 -1", "model 1 0 -1"]]
 
 
 def run(ctx):
@@ -285,7 +348,15 @@ def run(ctx):
     lc_dups_ok = all(x.ok for x in res)
     ctx.cov["lc_khc_duplicates_generated"] = lc_dups_ok
     if not lc_dups_ok:
-        core.correspond(ctx, "K-C17[L1-probe]", L1_PROBE, hcmd, dcmd, classify, env=ENV, keep_prefix=3)
+        core.correspond(ctx, "K-C17[L1-probe]", L1_PROBE, hcmd, dcmd, classify, env=ENV, keep_prefix=4)
+
+    # does a KHCTree over a non-linear kernel search in the kernel's metric? (finding KH1)  While it does not,
+    # the generated stream keeps the kernel-based trees on the linear kernel (where both metrics coincide)
+    res = [core.run_case(ctx, hcmd, dcmd, c, env=ENV) for c in KH1_PROBE]
+    khcp_ok = all(x.ok for x in res)
+    ctx.cov["nonlinear_kernel_trees_generated"] = khcp_ok
+    if not khcp_ok:
+        correspond(ctx, "K-C17[KH1-probe]", KH1_PROBE, hcmd, dcmd)
 
     # does IterativeNNQuery survive a tree whose root is a leaf? (finding R1)
     res = [core.run_case(ctx, hcmd, dcmd, c, env=ENV) for c in R1_PROBE]
@@ -293,7 +364,7 @@ def run(ctx):
     ctx.cov["root_leaf_trees_generated"] = root_leaf_ok
     if not all(x.ok for x in res):
         correspond(ctx, "K-C17[R1-probe]", R1_PROBE, hcmd, dcmd) if root_leaf_ok else \
-            core.correspond(ctx, "K-C17[R1-probe]", R1_PROBE, hcmd, dcmd, classify, env=ENV, keep_prefix=3)
+            core.correspond(ctx, "K-C17[R1-probe]", R1_PROBE, hcmd, dcmd, classify, env=ENV, keep_prefix=4)
     global ROOT_LEAF_OK
     ROOT_LEAF_OK = root_leaf_ok
 
@@ -301,7 +372,8 @@ def run(ctx):
     groups = [
         ("kd,bucket=1", [gen_case(r, ctx, ["kd"], lc_dups_ok, True, [1, 1, 1, 0]) for _ in range(nA)]),
         ("kd,bucket>1", [gen_case(r, ctx, ["kd"], lc_dups_ok, True, [2, 3, 4]) for _ in range(nB)]),
-        ("lc+khc", [gen_case(r, ctx, ["lc", "khc"], lc_dups_ok, True, [1, 1, 0, 2, 3, 4]) for _ in range(nC)]),
+        ("lc+khc", [gen_case(r, ctx, ["lc", "khc", "khcp"] if khcp_ok else ["lc", "khc"], lc_dups_ok, True, [1, 1, 0, 2, 3, 4])
+                    for _ in range(nC)]),
     ]
     allcases = [c for _, cs in groups for c in cs]
     ctx.cov["evaluations"] = len(allcases) + len(corpus)
@@ -310,10 +382,17 @@ def run(ctx):
     ctx.sample({"ops": allcases[len(allcases) // 2][:6]})
     for gname, cs in groups:
         correspond(ctx, f"K-C17[{gname}]", cs, hcmd, dcmd)
+    # the exhaustive-search back-end keeps one heap per OpenMP thread and merges them: a slice of every group again
+    # with 3 threads (the tree back-end is sequential; all observations are thread-count independent)
+    nT = 150 if ctx.quick else 1000
+    mt = [c for _, cs in groups for c in cs[:nT]]
+    ctx.cov["cases_rerun_with_3_threads"] = len(mt)
+    correspond(ctx, "K-C17[3 threads]", mt, hcmd, dcmd, ENV=dict(ENV, OMP_NUM_THREADS="3"))
     shutil.rmtree(ANNOT, ignore_errors=True)
     ctx.sample({"theorems": ["radius_is_lower_bound", "next_returns_min", "next_distances_nondecreasing",
                              "tree_knn_eq_bruteforce", "next_wrong_without_leafuniform", "k1Tree_hypotheses",
-                             "indexList_perm", "split_partitions", "nn_model_backend_independent"]})
+                             "k1_exact_for_leaf_distance", "indexList_perm", "split_partitions", "calcCutDim_dim_uniform",
+                             "featureDist2_linear", "nn_model_backend_independent"]})
 
 
 def replay(ctx, rep):
